@@ -104,6 +104,7 @@ static void probe_cb(const char *what, DBusConnection *conn, DBusMessage *msg) {
     }
     g_world->conn_to_client[conn] = ci;
     g_world->live_conns.insert(conn);
+    if (ci >= 0) g_world->accept_time_us[ci] = K->now_us;
     return;
   }
   if (strcmp(what, "dispatch") != 0) return;
@@ -239,6 +240,7 @@ int World::add_client(const simk::Creds &creds) {
 void World::queue_raw(int ci, const std::string &bytes, int lines) {
   Client &c = C(ci);
   if (c.closed) return;
+  if (c.begun) c.wire_stream += bytes;
   c.out += bytes;
   c.expect_lines += lines;
 }
@@ -277,8 +279,10 @@ size_t World::queue_msg(int ci, const wire::Msg &m, std::vector<int> fds) {
     return c.sent.size() - 1;
   }
   if (!fds.empty()) c.out_fds[c.out_base + c.out.size()] = std::move(fds);
+  c.wire_stream += bytes;
   c.out += bytes;
   s.end_off = c.out_base + c.out.size();
+  s.end_off_stream = c.wire_stream.size();
   c.sent.push_back(s);
   tr.ev("queue c%d serial=%u type=%d len=%zu", ci, m.serial, m.type, bytes.size());
   return c.sent.size() - 1;
